@@ -9,7 +9,7 @@ sys.path.insert(0, ROOT)
 from vcheck.report import Report  # noqa: E402
 
 DECODER_PROPS = ("C16", "C17", "C18", "C19")
-TX_PROPS = ("C01", "C02", "C03", "C04", "C05", "C06", "C07", "C09", "C10", "C11", "C12", "C13", "C14", "C15")
+TX_PROPS = ("C01", "C02", "C03", "C04", "C05", "C06", "C07", "C08", "C09", "C10", "C11", "C12", "C13", "C14", "C15", "C20")
 
 
 def main():
